@@ -186,13 +186,6 @@ func searchAll(c *core.Ctx, m *machine, maxDepth int) {
 	c.Count(m.name+"/depth", int64(maxDepth))
 }
 
-func trunc(s string, n int) string {
-	if len(s) > n {
-		return s[:n] + "..."
-	}
-	return s
-}
-
 // ---- machine 1: ShapeIndex add / build / reset / query ---------------------------
 
 func c13Shapes() []func() s2.Shape {
@@ -358,19 +351,6 @@ func c13IndexMachine() *machine {
 		return fmt.Sprintf("%v|%s", kinds, dumpKey(d)) + fmt.Sprintf("|next=%d n=%d", d.NextID, d.NumShapes), bad, obs
 	}
 	return m
-}
-
-func firstDiff(a, b string) int {
-	n := len(a)
-	if len(b) < n {
-		n = len(b)
-	}
-	for i := 0; i < n; i++ {
-		if a[i] != b[i] {
-			return i
-		}
-	}
-	return n
 }
 
 // ---- machine 2: Loop invert / query ------------------------------------------------
